@@ -95,6 +95,14 @@ impl ConnectionId {
 }
 
 #[cfg(feature = "verif")]
+impl RequestId {
+    /// Verification hook: the raw request number.
+    pub fn verif_as_usize(&self) -> usize {
+        self.0
+    }
+}
+
+#[cfg(feature = "verif")]
 impl ConnectionId {
     /// Verification hook: the raw connection number.
     pub fn verif_as_usize(&self) -> usize {
